@@ -191,21 +191,24 @@ def backend_case(inp):
         elif not lower <= set(result):
             out.append(fail("show_subset", sorted(result), "superset of " + str(sorted(lower)), "missing_state"))
     elif op == "get":
-        have = [s for s in permitted if "s" in s["lst"]]
-        best = min((RANK[s["scope"]] for s in have), default=None)
-        need = bool(have) and ("s" not in inp["local"] or not inp["valid"])
+        # C13: "fetching uses the closest permitted source" and downloads again only when the local copy differs.
+        # The closest permitted source is the first permitted one in proximity order; whether a farther source is
+        # tried when the closest one lacks the state is not part of the property (the code does not fall back).
+        closest_rank = min((RANK[s["scope"]] for s in permitted), default=None)
+        closest = [s for s in permitted if RANK[s["scope"]] == closest_rank]
+        # among equally close sources the order is unspecified: a download is required only if all of them have it
+        all_have = bool(closest) and all("s" in s["lst"] for s in closest)
+        need = all_have and ("s" not in inp["local"] or not inp["valid"])
         gets = [i for n, i in log if n == "get"]
         ob = "get_closest_and_only_if_different"
         if len(gets) > 1:
             out.append(fail(ob, gets, "at most one download", "multiple_downloads"))
+        elif gets and gets[0] not in [s["id"] for s in closest if "s" in s["lst"]]:
+            out.append(fail(ob, gets, [s["id"] for s in closest], "not_closest_with_state"))
         elif need and not gets:
-            closer_lacks = any(RANK[s["scope"]] <= best and "s" not in s["lst"] for s in permitted)
-            out.append(fail(ob, "no download", [s["id"] for s in have if RANK[s["scope"]] == best],
-                            "closest_permitted_lacks_state_no_fallback" if closer_lacks else "download_missing"))
-        elif need and gets[0] not in [s["id"] for s in have if RANK[s["scope"]] == best]:
-            out.append(fail(ob, gets, [s["id"] for s in have if RANK[s["scope"]] == best], "not_closest_with_state"))
-        elif not need and gets:
-            out.append(fail(ob, gets, "no download", "download_although_valid" if have else "download_without_state"))
+            out.append(fail(ob, "no download", [s["id"] for s in closest], "download_missing"))
+        elif gets and not ("s" not in inp["local"] or not inp["valid"]):
+            out.append(fail(ob, gets, "no download", "download_although_valid"))
     else:
         got = sorted(i for n, i in log if n == op)
         want = sorted(s["id"] for s in permitted)
